@@ -147,6 +147,29 @@ Proof.
 Qed.
 Print Assumptions C03_image_refuted_qer_relabel.
 
+(* A fourth shape, met while proving the history theorem below (not yet a recorded finding): a PDR is REPLACED in one
+   message - {Remove PDR 1, Create PDR 2 with the same PDI}.  The handler sends the add batch first and the delete batch
+   afterwards, both address the same pdrLookup key: the modification is accepted, the session stores PDR 2, and
+   pdrLookup is EMPTY (the new entry was deleted with the old one) *)
+Theorem C03_image_refuted_replace_same_key :
+  exists a c m a' c' o,
+    handle (fun _ _ _ => 0) a c true m [] = Done (a', c', o) /\ o_reply o = Some (RMod 77 CAUSE_OK) /\
+    map (fun s => map p_id (view (s_pdrs s))) (c_sessions c) = [[1]] /\ length (t_pdr (a_tables a)) = 1%nat /\
+    map (fun s => map p_id (view (s_pdrs s))) (c_sessions c') = [[2]] /\ t_pdr (a_tables a') = [] /\
+    map (fun x => (c_add x, c_key x)) (o_cmds o) =
+      [(true, [2; 0; 0; 0; 50; 0; 0; 0; 255; 0; 0; 0; 4294967295; 0; 0; 0]);
+       (false, [2; 0; 0; 0; 50; 0; 0; 0; 255; 0; 0; 0; 4294967295; 0; 0; 0])].
+Proof.
+  set (p1 := Pdr 1 5 2 255 0 0 0 0 50 10 1 [] 0 false false 0 0 50 4294967295 (PR 0 0) (PR 0 0) 0 0).
+  exists (Agent (Cfg 100 200 true) None (Gen 0 []) 1 (apply_cmds (pdr_add p1) no_tables)).
+  exists (Conn 7 [] [Sess 5 77 (s_of [p1]) (s_of []) (s_of [])] 0).
+  exists (MMod 5 None [PdrIE (IOk 2) (IOk 20) (IOk [PSrc (IOk 1); PUeip (IOk (2, Some 50))]) false (IOk 1) true []] [] [] [] [] [] [IOk 1] [] []).
+  do 3 eexists. split; [vm_compute; reflexivity|].
+  split; [vm_compute; reflexivity|]. split; [vm_compute; reflexivity|]. split; [vm_compute; reflexivity|].
+  split; [vm_compute; reflexivity|]. split; [vm_compute; reflexivity|]. vm_compute; reflexivity.
+Qed.
+Print Assumptions C03_image_refuted_replace_same_key.
+
 (* ---- the image invariant over HISTORIES of several associations (Model/World.v): along every history of
    establishments (accepted or rejected), deletions, Session Report responses, association releases, teardowns,
    restarts and node-level messages - everything but Session Modification - on any number of associations, if the
@@ -222,8 +245,8 @@ Qed.
        nothing (no relabel - true of a session already marked at establishment); every Remove PDR / FAR / QER id
        resolves; when creations and removals come in one message, the rule lists the session has BETWEEN the add batch
        and the delete batch (old and new rules together) have pairwise distinct keys, distinct from the other
-       sessions' keys (a Create whose key equals that of a rule removed by the same message would be installed and
-       then deleted).
+       sessions' keys (a Create whose key equals that of a rule removed by the same message is installed and then
+       deleted: C03_image_refuted_replace_same_key).
    Inside: any number of Update FARs (Outer Header Creation, end-marker flag, buffering, unknown ids skipped), CP
    F-SEID change, Remove PDR/FAR/QER of existing rules, Create PDR/FAR/QER, Update QER of application-level QERs,
    Update PDR that changes precedence / FAR id / QER list / value fields but not the match key - and their mixtures.
